@@ -4,6 +4,7 @@ import (
 	"encoding/json"
 	"fmt"
 	"regexp"
+	"sort"
 	"strconv"
 	"strings"
 	"testing"
@@ -276,6 +277,24 @@ func c20Gen(t *rapid.T) C20Case {
 				// into an identifier unless a call follows); a key may spell it with separators.
 				w := rapid.SampledFrom(c20FunctionWords).Draw(t, "function-word")
 				k = strings.ReplaceAll(w, "_", rapid.SampledFrom([]string{"_", ".", "-", "/", " "}).Draw(t, "function-word-sep"))
+			}
+			if rapid.IntRange(0, 7).Draw(t, "keyword-case-key") == 0 {
+				// Reserved words are reserved in lower case only: By, ON, Json, KEEP are ordinary names.
+				var words []string
+				for w := range logqlKeywords {
+					words = append(words, w)
+				}
+				sort.Strings(words)
+				w := rapid.SampledFrom(words).Draw(t, "keyword")
+				switch rapid.IntRange(0, 2).Draw(t, "keyword-casing") {
+				case 0:
+					w = strings.ToUpper(w)
+				case 1:
+					w = strings.ToUpper(w[:1]) + w[1:]
+				default:
+					w = w[:len(w)-1] + strings.ToUpper(w[len(w)-1:])
+				}
+				k = strings.ReplaceAll(w, "_", rapid.SampledFrom([]string{"_", ".", "-"}).Draw(t, "keyword-sep"))
 			}
 			if rapid.IntRange(0, 7).Draw(t, "attribute-key") == 0 {
 				// Keys spelled like the daemon's own container attributes and list filters.
